@@ -124,6 +124,22 @@ def run_shard(desc, tier, res):
             tier == 'thorough' or any(isinstance(c, blocks) for c in ast.iter_child_nodes(n)))]  # quick: the root and every block
         ops = list(E.enumerate_ops(src0, nk=1, nks=1, forms=('src',), opts=({},), kinds=('line_comment', 'docstr', 'remove', 'insert'),
                                    lc_texts=('a much longer comment', None)))
+        # code whose string values depend on the indentation it is put at (a backslash-continued docstring): put at every statement position
+        redent = [op for op in E.enumerate_ops(src0, nk=7, nks=1, forms=('src', 'fst'), opts=({},), kinds=('replace', 'insert'))
+                  if op.get('code') and op['code'][0] == E.K_ONE['stmt'][6][0]]
+        for op in redent:
+            root = fst.FST(src0, 'exec')
+            cid = f"C02/p{desc['prog']}/redent/{E.op_id(op)}"
+            res.evals += 1
+            res.transitions += 1
+            try:
+                E.apply(fst, root, op)
+            except Exception:  # noqa: BLE001
+                continue
+            if unparsable(root):
+                continue
+            if check(fst, root, src0, [op], cid, 'none', res):
+                res.nontriv(cid)
         for tp in targets:
             for op in ops:
                 root = fst.FST(src0, 'exec')
